@@ -233,6 +233,7 @@ type lockIssue struct {
 
 // LockFlows caches per-function analyses and summaries.
 type LockFlows struct {
+	peMemo   map[*ssa.Function]map[string]paramEff
 	c        *Ctx
 	memo     map[*ssa.Function]*LockFlow
 	busy     map[*ssa.Function]bool
@@ -351,6 +352,45 @@ func (lf *LockFlow) transfer(instr ssa.Instruction, st LState, issues map[string
 	if op, ok := lockOpOf(instr); ok {
 		lf.apply(op.Kind, op.Path, op.Deferred, instr, st, issues)
 		return
+	}
+	// a module function (not a closure) that releases / acquires a lock reached from one of its
+	// parameters: its net effect applies at the call site, on the argument's path
+	if ci, ok := instr.(ssa.CallInstruction); ok {
+		if _, isGo := instr.(*ssa.Go); !isGo {
+			if f := ci.Common().StaticCallee(); f != nil && f.Parent() == nil && f != lf.Fn && lf.lfs.c.modFuncSet[f] && len(f.Blocks) > 0 {
+				if eff := lf.lfs.paramEffect(f); len(eff) > 0 {
+					args := callArgs(ci.Common())
+					_, isDefer := instr.(*ssa.Defer)
+					var ps []string
+					for p := range eff {
+						ps = append(ps, p)
+					}
+					sort.Strings(ps)
+					for _, p := range ps {
+						e := eff[p]
+						if e.param >= len(args) {
+							continue
+						}
+						cp := accessPath(args[e.param]) + e.rest
+						if _, known := lf.ClassOf[cp]; !known {
+							lf.ClassOf[cp] = e.class
+						}
+						k := "Lock"
+						if e.n < 0 {
+							k = "Unlock"
+						}
+						if e.read {
+							k = "R" + k
+						}
+						if isDefer && e.n > 0 {
+							continue
+						}
+						lf.apply(k, cp, isDefer, instr, st, issues)
+					}
+					return
+				}
+			}
+		}
 	}
 	// deferred closure: apply its net releases as registered deferred releases
 	if d, ok := instr.(*ssa.Defer); ok {
@@ -586,4 +626,51 @@ func (lfs *LockFlows) Acquires(fn *ssa.Function) map[string]bool {
 	}
 	walk(fn, 0)
 	return a
+}
+
+// paramEffect: net lock effects of a top-level function on paths rooted at its parameters
+// (excluding balanced uses). Keyed by the callee's own path.
+type paramEff struct {
+	param int
+	rest  string
+	n     int
+	read  bool
+	class string
+}
+
+func (lfs *LockFlows) paramEffect(fn *ssa.Function) map[string]paramEff {
+	if lfs.peMemo == nil {
+		lfs.peMemo = map[*ssa.Function]map[string]paramEff{}
+	}
+	if v, ok := lfs.peMemo[fn]; ok {
+		return v
+	}
+	lfs.peMemo[fn] = nil
+	eff, classes, read := lfs.closureEffect(fn)
+	out := map[string]paramEff{}
+	for p, n := range eff {
+		root := p
+		for i, ch := range p {
+			if ch == '.' || ch == '[' {
+				root = p[:i]
+				break
+			}
+		}
+		for i, prm := range fn.Params {
+			// the receiver's own locks are the callee's business unless they are handed in from outside:
+			// only non-receiver parameters, or a receiver that *is* the lock
+			if prm.Name() != root {
+				continue
+			}
+			if i == 0 && fn.Signature.Recv() != nil && root != p {
+				continue
+			}
+			out[p] = paramEff{param: i, rest: p[len(root):], n: n, read: read[p], class: classes[p]}
+		}
+	}
+	if len(out) == 0 {
+		out = nil
+	}
+	lfs.peMemo[fn] = out
+	return out
 }
